@@ -233,7 +233,7 @@ func (e *Engine) modelBmain(s *State, fr *Frame, key string, f *ssa.Function, ar
 	// opt-in: the exact string models apply only under a root whose contract says `exact_strings`; every other root
 	// keeps the previous models (Sprintf: arbitrary string, path.Join: unknown pure call), so existing checks see
 	// exactly the queries they saw before
-	if e.rootContract == nil || e.rootContract.Flags["exact_strings"] == "" {
+	if e.rootContract == nil || e.rootContract.Flags["exact_strings"] != "1" {
 		return nil, false
 	}
 	switch key {
